@@ -38,6 +38,9 @@ REQ_CLASSES = {
     # answered at once; 0.5 T later the peer RESETS the idle connection (RST: the transport dies with an error, no EOF first; UDP: a late
     # ICMP error); the caller pauses 0.7 T
     "ok_latereset": [["nowerr", errno.ECONNRESET, 0.5]],
+    # answered at once; 0.4 T later a lone first fragment of that answer arrives again on the idle socket (whatever it arms or buffers must
+    # not disturb the next request, which starts 0.3 T after it)
+    "ok_latefrag": [["nowfrag", 0.4]],
 }
 # classes whose script legitimately makes the library retransmit / reconnect
 RETRY_CLASSES = {"drop_ok", "exh", "garbage_ok", "closelate_ok", "close_ok", "late", "frag1", "reset_ok", "senderr"}
@@ -65,14 +68,14 @@ def scenario(transport, ka, T, R, actions):
             cur.append(["b2b", ["read", reg - 1, 2], ["read", reg, 2]])
         else:
             reg += 1
-            by_reg[reg] = [([x[0], x[1] * T] if (isinstance(x, list) and x[0] in ("delay", "nowjunk")) else
+            by_reg[reg] = [([x[0], x[1] * T] if (isinstance(x, list) and x[0] in ("delay", "nowjunk", "nowfrag")) else
                            ([x[0], x[1], x[2] * T] if (isinstance(x, list) and x[0] == "nowerr") else
                             ([x[0], x[1], x[2] * T] if (isinstance(x, list) and x[0] == "frag2") else x))) for x in REQ_CLASSES[a]]
             reg_class[reg] = a
             if a == "senderr":
                 cur.append(["arm_send_fault", errno.EHOSTUNREACH])
             cur.append(["read", reg, 2])
-            if a in ("ok_latebad", "ok_latereset"):
+            if a in ("ok_latebad", "ok_latereset", "ok_latefrag"):
                 cur.append(["sleep", 0.7 * T])
     reg += 1
     by_reg[reg] = ["now"]
@@ -172,7 +175,7 @@ def check_run(sc, run, part: Part):
             part.count("answered_request_right_after_a_rejected_one")
             if c["outcome"] != "ok":
                 out.append((f"C10/{tr}/next-request-fails", f"{ctx}: the request issued right after a rejected one (same loop iteration) ended {c['outcome']}"))
-            elif ntx_ != 2 and not any(x in RETRY_CLASSES or x in ("ok_latebad", "ok_latereset") for x in sc["actions"]):
+            elif ntx_ != 2 and not any(x in RETRY_CLASSES or x in ("ok_latebad", "ok_latereset", "ok_latefrag") for x in sc["actions"]):
                 out.append((f"C10/{tr}/reconnect-not-transparent",
                             f"{ctx}: a rejected request and, right after it, an answered one took {ntx_} transmissions instead of 2"))
     # (4) the request against the healthy peer succeeds
@@ -184,7 +187,7 @@ def check_run(sc, run, part: Part):
         acts = sc["actions"]
         # ... and transparently: when nothing in the history can leave a stray answer behind (only answered requests, close(), loop changes
         # and - TCP - idle connection drops), the healthy request needs exactly one transmission
-        clean = {"ok", "slow_ok", "frag2_ok", "rej", "CLOSE", "NEWLOOP", "ok_latebad", "ok_latereset", "REJ_THEN_OK"} | ({"PEERDROP"} if tr == "tcp" else set())
+        clean = {"ok", "slow_ok", "frag2_ok", "rej", "CLOSE", "NEWLOOP", "ok_latebad", "ok_latereset", "ok_latefrag", "REJ_THEN_OK"} | ({"PEERDROP"} if tr == "tcp" else set())
         ntx = len([e for e in engine.events_of_call(run, healthy[0]["id"]) if e[1] == "tx"])
         if all(a in clean for a in acts):
             part.count("transparent_reconnect_checked")
